@@ -181,6 +181,8 @@ def run(ctx):
 
     logs, bad = connlib.run_cases(ctx, real2, cases, connlib.make_post(post_fn), "Conn(callbacks)", RULE, nontrivial, snapshots=False)
     for c in cases:
+        if connlib.reassembly_monitor(c, logs.get(core.case_id(c), []), ctx):
+            return
         monitor(c, logs.get(core.case_id(c), []), ctx)
         if ctx.failures:
             return
